@@ -215,6 +215,7 @@ pub struct Acc {
     pub witness_not_eta: u64,
     pub sr_checked: u64,
     pub determinism_checked: u64,
+    pub starved_blockers: u64,
     pub samples: Vec<Value>,
 }
 
@@ -240,6 +241,7 @@ impl Acc {
         self.witness_not_eta += o.witness_not_eta;
         self.sr_checked += o.sr_checked;
         self.determinism_checked += o.determinism_checked;
+        self.starved_blockers += o.starved_blockers;
         for s in o.samples {
             if self.samples.len() < 6 {
                 self.samples.push(s);
@@ -264,6 +266,7 @@ impl Acc {
             "witness_not_eta_compliant": self.witness_not_eta,
             "stateright_cross_checked_systems": self.sr_checked,
             "determinism_rechecked_systems": self.determinism_checked,
+            "bounds_compared_with_blocking_restricted_to_lower_priority_tasks_that_can_execute": self.starved_blockers,
         })
     }
 }
@@ -475,6 +478,30 @@ pub fn check_taskset(
                     m = Model::new(&spec, &b, tua, &opts);
                     st = engine::explore(&m, 2_000_000);
                     wc = g.iter().map(|k| st.max_resp[*k] as u64).max().unwrap();
+                }
+                // Tightness is relative to an attainable blocking input: a lower-priority task
+                // that can never execute (the intermediate priority band alone keeps the processor
+                // busy forever, e.g. a strictly periodic task with C = T) cannot block, and the
+                // library cannot know that.  Recompute the bound with the blocking term restricted
+                // to the lower-priority tasks that do execute in some reachable transition.
+                let mut bound = bound;
+                if wc < bound && ana == Ana::FpNp && st.complete() {
+                    if let Some(i) = tua {
+                        let starved: Vec<usize> = (i + 1..n).filter(|k| !st.ran[*k]).collect();
+                        if !starved.is_empty() {
+                            let mut case = to_case(ana, ts, i, BIG_LIMIT);
+                            case.blocking = (i + 1..n)
+                                .filter(|k| st.ran[*k])
+                                .map(|k| max_seg(ana, &ts[k]))
+                                .max()
+                                .unwrap_or(0)
+                                .saturating_sub(1);
+                            if let Some(b2) = run_uni(&case).ok() {
+                                acc.starved_blockers += 1;
+                                bound = b2;
+                            }
+                        }
+                    }
                 }
                 if wc == bound {
                     acc.tight += 1;
